@@ -18,7 +18,8 @@ class Contract:
                  on_yield=None, on_yield_from=None, yield_mods=(), setup=None, locals=None, consts=None,
                  assumptions=(), loop_modifies=None, check_encode=False, replay=None, generator=False,
                  ghost_modifies=(), pure=False, notes="", bodyless=False, lemmas=None, cls=None,
-                 timeout_ms=None, frame_check=True, inline=False, forall_ghosts=()):
+                 timeout_ms=None, frame_check=True, inline=False, forall_ghosts=(), watch_extra=None,
+                 model_to_inputs=None, native=None, cuts=None):
         self.id = id
         self.file = file
         self.qualname = qualname
@@ -60,6 +61,10 @@ class Contract:
         self.frame_check = frame_check
         self.inline = inline
         self.forall_ghosts = list(forall_ghosts)
+        self.watch_extra = watch_extra
+        self.cuts = cuts or {}
+        self.model_to_inputs = model_to_inputs   # model dict -> inputs of the native replay driver
+        self.native = native                     # (native module, function) used to replay
         self.defs_parsed = {}
         for sig, body in self.defs.items():
             m = _re.match(r"\s*(\w+)\s*\((.*)\)\s*$", sig)
@@ -134,6 +139,14 @@ def _quant(kind):
         if len(a) == 4:
             lo = sub.expr(a[1]).t
             hi = sub.expr(a[2]).t
+            los, his = z3.simplify(lo), z3.simplify(hi)
+            if z3.is_int_value(los) and z3.is_int_value(his) and his.as_long() - los.as_long() <= 24:
+                # concrete bounds: expand (keeps bounded-refutation queries quantifier-free)
+                parts = []
+                for i in range(los.as_long(), his.as_long()):
+                    sub.bound[name] = VInt(i)
+                    parts.append(sub.truth(sub.expr(a[3])))
+                return VBool((z3.And if kind == "forall" else z3.Or)(parts + [z3.BoolVal(kind == "forall")]))
             body = sub.truth(sub.expr(a[3]))
             rng = z3.And(lo <= k, k < hi)
             return VBool(mk_quant(kind, [k], z3.Implies(rng, body) if kind == "forall" else z3.And(rng, body)))
